@@ -253,6 +253,16 @@ def is_monitor(tag):
     return tag.startswith("mon.") or tag in ("badThis", "badOrigin", "asserts", "allocs", "on")
 
 
+# leftovers of a load / replay / copy (requested prongs, pending answers while idle) are that operation's matter
+CALL_OWNER = {"load": "C08", "replay": "C09", "replayenter": "C09", "copy": "C10"}
+
+
+def monitor_owner(d):
+    if d["tag"].startswith("mon.idle.") and d.get("call") in CALL_OWNER and not d["tag"].endswith(".D10"):
+        return CALL_OWNER[d["call"]]
+    return TAG_PROPERTY.get(d["tag"])
+
+
 def primary(run, ds):
     """(property, [diffs]) that raises the functional alarm for one record, or (None, [])"""
     tags = {d["tag"] for d in ds}
@@ -369,7 +379,7 @@ def behavioural(pid, tier, out, extra_tags=(), accept=None):
         for (f, l), ds in sorted(per_rec.items()):
             tags_here = {d["tag"] for d in ds}
             pprop, pdiffs = primary(run, ds)
-            mine = [d for d in ds if is_monitor(d["tag"]) and TAG_PROPERTY.get(d["tag"]) == pid]
+            mine = [d for d in ds if is_monitor(d["tag"]) and monitor_owner(d) == pid]
             if pprop == pid:
                 mine += pdiffs
             mine += [d for d in ds if d["tag"] in extra_tags and d not in mine]
